@@ -443,7 +443,7 @@ func checkTaskTypeNumber(s, via string) {
 	c := textCase{s, via}
 	n, e := strconv.Atoi(s)
 	if e != nil { // all-digit text too large for an int: certainly not 1..13
-		n = 1 << 62
+		n = 1 << 30
 	}
 	code, verdict := spec.TxtTaskNumber(n)
 	siteName := "TaskType.UnmarshalJSON"
